@@ -70,7 +70,8 @@ def rexpr(e):
 def roperand(s, delim='"', name="prog"):
     mn, f = s["mn"], s["form"]
     if mn == "FCC":
-        delim = {"dq": '"', "slash": "/", "sq": "'", "bar": "|"}.get(s["expr"]["l"]["sp"], delim)
+        tag = s["expr"]["l"]["sp"]
+        delim = {"dq": '"', "slash": "/", "sq": "'", "bar": "|"}.get(tag, chr(int(tag[1:])) if tag[:1] == "d" and tag[1:].isdigit() else delim)
         return delim + "".join(chr(c) for c in s["chars"]) + delim
     if mn in ("FCB", "FDB"):
         return ",".join(rexpr(v) for v in s["vals"])
@@ -97,7 +98,8 @@ def roperand(s, delim='"', name="prog"):
         return rexpr(s["expr"])
     if f == "idx":
         r, sub = s["reg"], s["sub"]
-        op = {"zero": "," + r, "inc1": "," + r + "+", "inc2": "," + r + "++", "dec1": ",-" + r, "dec2": ",--" + r}.get(sub)
+        op = {"zero": "," + r, "inc1": "," + r + "+", "inc2": "," + r + "++", "dec1": ",-" + r, "dec2": ",--" + r,
+              "dec1inc1": ",-" + r + "+", "dec2inc1": ",--" + r + "+", "dec1inc2": ",-" + r + "++", "dec2inc2": ",--" + r + "++", "inc3": "," + r + "+++", "dec3": ",---" + r}.get(sub)
         if sub == "acc":
             op = s["acc"] + "," + r
         if sub == "off":
@@ -169,7 +171,7 @@ def assemble(lines, timeout=4, hooks=False):
     from cocoasm.program import Program
     from cocoasm.exceptions import ParseError, TranslationError
     rec = {"outcome": "ok", "exc": "", "site": "", "msg": "", "diag_named": False, "diag_fields": None, "obs": [], "image": [],
-           "symtab": [], "origin": 0, "name": "", "nstmts": 0, "listing": [], "adapter": "", "hooks": []}
+           "symtab": [], "origin": 0, "name": "", "nstmts": 0, "listing": [], "adapter": "", "hooks": [], "stmts": []}
     given = list(lines)
     old = signal.signal(signal.SIGALRM, _alarm)
     signal.alarm(timeout)
@@ -197,6 +199,7 @@ def assemble(lines, timeout=4, hooks=False):
                 if addr != (st.code_pkg.address.int & 0xFFFFFFFF):
                     rec["adapter"] = "listing address disagrees with code package at %d" % k
             rec["obs"].append({"addr": addr, "bytes": b})
+            rec["stmts"].append([st.label or "", st.mnemonic or ""])
         for l in symlines:
             parts = l.split()
             try:
@@ -265,7 +268,7 @@ def trace_of(tid, prog, lines, rec):
     """Uniform-schema trace record for spec/Tr_Asm.tla."""
     n = len(prog)
     outcome = rec["outcome"]
-    if outcome == "ok" and rec["nstmts"] != n:
+    if outcome == "ok" and prog and rec["nstmts"] != n:       # (free text has no abstract program: nothing to count against)
         outcome = "stmtcount"
     diag_k = 0
     if rec["diag_fields"]:
